@@ -11,7 +11,7 @@ import (
 )
 
 func init() {
-	props["C09"] = &propDef{run: runC09, explanation: "C09 decided statically: (O1) the applier's window predicate (callee inlined) is extracted as a decision tree over comparisons of {0, from, until, t, from+Δ} and evaluated on every consistent weak ordering of these five points (exhaustive, boundaries included); it returns nil exactly when (from=0 ∧ until=0) ∨ (from ≤ t ≤ U), U = from+Δ if from≠0 ∧ until=0 else until. (P1) Δ is Protocol.MaxOperationTimeDelta in the applier and in the parser, and no other Protocol field is read by either computation. (G1) outside batch mode the three parsers succeed only across TimeValidator.Validate(signedData.AnchorFrom, U(signedData.AnchorFrom, signedData.AnchorUntil)) on the same signed data, with U decided as above; in batch mode the validator is unreachable. (G2) out-of-window update/recover still return the model with the advanced commitment and never install a patched document; out-of-window deactivate is refused. Assumes no int64 overflow in from+Δ and t < 2^63. (K1) the parser and applier never assign a field of protocol.Protocol; (U1) the signed anchoring times are compared nowhere in the parser except in the default-expiry function."}
+	props["C09"] = &propDef{run: runC09, explanation: "C09 decided statically: (O1) the applier's window predicate (callee inlined) is extracted as a decision tree over comparisons of {0, from, until, t, from+Δ} and evaluated on every consistent weak ordering of these five points (exhaustive, boundaries included); it returns nil exactly when (from=0 ∧ until=0) ∨ (from ≤ t ≤ U), U = from+Δ if from≠0 ∧ until=0 else until. (P1) Δ is Protocol.MaxOperationTimeDelta in the applier and in the parser, and no other Protocol field is read by either computation. (G1) outside batch mode the three parsers succeed only across TimeValidator.Validate(signedData.AnchorFrom, U(signedData.AnchorFrom, signedData.AnchorUntil)) on the same signed data, with U decided as above; in batch mode the validator is unreachable. (G2) out-of-window update/recover still return the model with the advanced commitment and never install a patched document; out-of-window deactivate is refused. Assumes no int64 overflow in from+Δ and t < 2^63. (K1) the parser and applier never assign a field of protocol.Protocol; (U1) the signed anchoring times are compared nowhere in the parser except in the default-expiry function. (G3) Parser.anchorTimeValidator is written by New and its own option only, never with a possibly nil value."}
 }
 
 // windowFn discovers, in an apply function, the static callee invoked with
@@ -530,6 +530,10 @@ func runC09(c *Ctx) {
 		c.Check("C09.U1", "anchor-times-not-compared-by-the-parser", len(foreign) == 0 && n >= 2, 0, fmt.Sprintf("%d reads of signedData.AnchorFrom / AnchorUntil in the parser package; comparisons outside the default-expiry function: %v", n, foreign))
 	}
 	c.Min("C09.U1", 1)
+	// ---- G3 "the configured time validator": the parser's validator fields are written by the constructor (the default)
+	// and by their own option (the configured one, when it is not nil) — and by nothing else
+	c.validatorFieldsRule("C09.G3", "anchorTimeValidator")
+	c.Min("C09.G3", 3)
 	c.Assume("no int64 overflow in from + MaxOperationTimeDelta; anchoring times < 2^63; 'missing' bound = 0 as in the JSON model (omitempty)")
 }
 
@@ -550,5 +554,113 @@ func (c *Ctx) protocolReadOnlyRule(rule string) {
 		c.alive(rule, "a configuration field assigned a default", fired == 1, silent == 0)
 	} else {
 		c.Check(rule, "positive-example:build", false, 0, "built-in positive examples could not be built: "+err.Error())
+	}
+}
+
+// validatorFieldsRule: who may write the named collaborator fields of operationparser.Parser, and what: the constructor
+// New stores a default on every path (itself, or through a helper only New calls); the field's own option
+// With<Field> stores the value it was given, behind a test that it is not nil; no other function writes the field.
+// (An option that resets a field it is not about silently replaces the configured validator by the permissive default;
+// an option that stores nil makes the parser dereference nil on the first request that reaches the validator.)
+func (c *Ctx) validatorFieldsRule(rule string, fields ...string) {
+	newFn := c.Fn(pParser, "New")
+	pt := c.NamedType(pParser, "Parser")
+	if newFn == nil || pt == nil {
+		c.Unresolved(rule, "operationparser.New / Parser")
+		return
+	}
+	c.Analysed(newFn)
+	callers := func(g *ssa.Function) []*ssa.Function {
+		var out []*ssa.Function
+		for _, f := range c.Funcs {
+			if len(callsTo(f, g)) > 0 {
+				out = append(out, f)
+			}
+		}
+		return out
+	}
+	for _, fld := range fields {
+		optName := "With" + strings.ToUpper(fld[:1]) + fld[1:]
+		var bad []string
+		nNew, nOpt := 0, 0
+		newOnAllPaths := false
+		for _, f := range c.Funcs {
+			if !strings.HasPrefix(pkgPathOf(f), modPkg) {
+				continue
+			}
+			forEachInstr(f, func(in ssa.Instruction) {
+				st, ok := in.(*ssa.Store)
+				if !ok {
+					return
+				}
+				fa, isFA := st.Addr.(*ssa.FieldAddr)
+				if !isFA || fieldName(fa.X.Type(), fa.Field) != fld {
+					return
+				}
+				if nt, isN := derefT(fa.X.Type()).(*types.Named); !isN || nt.Obj() != pt.Obj() {
+					return
+				}
+				// where: New, a helper of New's alone, or the literal of the field's option
+				host := f
+				where := ""
+				switch {
+				case host == newFn:
+					where = "new"
+				case host.Parent() != nil && host.Parent().Name() == optName && host.Parent().Parent() == nil:
+					where = "option"
+				default:
+					cs := callers(host)
+					if host.Object() != nil && !host.Object().Exported() && len(cs) == 1 && cs[0] == newFn {
+						where = "new"
+					}
+				}
+				if where == "" {
+					bad = append(bad, fmt.Sprintf("%s: %s writes Parser.%s (only New and %s may)", c.pos(st.Pos()), short(f.String()), fld, optName))
+					return
+				}
+				// what: a value that is not nil
+				nonNil := false
+				if mi, isMI := st.Val.(*ssa.MakeInterface); isMI {
+					if _, isAl := mi.X.(*ssa.Alloc); isAl {
+						nonNil = true
+					}
+				}
+				if !nonNil {
+					vp := c.Path(st.Val, nil)
+					if okG, _, n := c.Guard(f, nil, cmpReject(vp+" == nil kept out", token.EQL, pathIs(vp), pathIs("nil")), func(i ssa.Instruction) bool { return i == ssa.Instruction(st) }); okG && n > 0 {
+						nonNil = true
+					}
+				}
+				if !nonNil {
+					bad = append(bad, fmt.Sprintf("%s: %s stores a value that may be nil into Parser.%s", c.pos(st.Pos()), short(f.String()), fld))
+				}
+				if where == "new" {
+					nNew++
+					// on every path of New: the store (or the call of the helper that makes it) dominates New's exits
+					at := ssa.Instruction(st)
+					if host != newFn {
+						for _, cl := range callsTo(newFn, host) {
+							at = cl
+						}
+					}
+					dom := true
+					for _, r := range returnsOf(newFn) {
+						if !at.Block().Dominates(r.Block()) {
+							dom = false
+						}
+					}
+					newOnAllPaths = newOnAllPaths || dom
+				} else {
+					nOpt++
+					// (the option stores what it was given: its captured argument)
+					if where == "option" && c.Path(st.Val, nil) != "up:$0" {
+						bad = append(bad, fmt.Sprintf("%s: %s stores %s instead of the validator it was given", c.pos(st.Pos()), optName, c.Path(st.Val, nil)))
+					}
+				}
+			})
+		}
+		c.Check(rule, "Parser."+fld+":written-by-New-and-its-own-option-only", len(bad) == 0, newFn.Pos(), fmt.Sprintf("Parser.%s: %d store(s) in New, %d in %s; none elsewhere, none of a possibly nil value", fld, nNew, nOpt, optName), bad...)
+		c.Check(rule, "Parser."+fld+":default-on-every-path-of-New", nNew >= 1 && newOnAllPaths, newFn.Pos(), "New installs a default "+fld+" on every path")
+		c.Check(rule, "Parser."+fld+":own-option-stores-it", nOpt == 1, newFn.Pos(), fmt.Sprintf("%s stores the validator it is given (%d store(s))", optName, nOpt))
 	}
 }
